@@ -6,6 +6,8 @@ package main
 import (
 	"fmt"
 	"go/types"
+	"os"
+	"runtime"
 	"sort"
 	"strings"
 	"sync"
@@ -70,6 +72,7 @@ type Exec struct {
 	pk       *Pkg
 	fn       *ssa.Function
 	fc       *FuncContract
+	topFc    *FuncContract
 	o        *Ops
 	assumes  []*Term
 	obls     []*Obligation
@@ -168,6 +171,9 @@ func (x *Exec) oblige(kind, label string, tags []string, text string, guard, goa
 	}
 	ob := &Obligation{Name: name, Kind: kind, Tags: tags, Fn: InstName(x.fn), Text: text, Pos: x.curPos,
 		NAssume: len(x.assumes), Goal: g, Trivial: g.IsTrue(), x: x}
+	if x.topFc != nil {
+		ob.Bounded = x.topFc.Opts["bounded"]
+	}
 	x.obls = append(x.obls, ob)
 	return ob
 }
@@ -410,6 +416,13 @@ func (x *Exec) mergeStates(b *ssa.BasicBlock, ins []*inEdge) *State {
 					res, okRes = nil, false // unmergeable (dead) value: dropped; a later use is reported
 					return
 				}
+				if re, isRT := r.(runtime.Error); isRT {
+					if os.Getenv("GOVC_DEBUG") != "" {
+						fmt.Fprintln(os.Stderr, "merge: runtime error:", re)
+					}
+					res, okRes = nil, false // values of different shapes: unmergeable
+					return
+				}
 				panic(r)
 			}
 		}()
@@ -441,6 +454,11 @@ func (x *Exec) mergeStates(b *ssa.BasicBlock, ins []*inEdge) *State {
 		k := k
 		if v, ok := mergeVals(func(s *State) (Val, bool) { v, ok := s.Cells[k]; return v, ok }); ok {
 			st.Cells[k] = v
+		} else if os.Getenv("GOVC_DEBUG") != "" {
+			fmt.Fprintf(os.Stderr, "merge: cell of %s (%s) dropped at block %d\n", k.Name, k.T, b.Index)
+			for _, in := range ins {
+				fmt.Fprintf(os.Stderr, "   pred %d: %T\n", in.Pred.Index, in.St.Cells[k])
+			}
 		}
 	}
 	for k := range ins[0].St.Ghost {
@@ -611,8 +629,13 @@ func (x *Exec) cutLoopAtHeader(fn *ssa.Function, l *Loop, spec *LoopSpec, st *St
 	mods := x.loopMods(l, st)
 	var havockedSlices []SliceVal
 	for obj := range mods.objs {
-		if cur, ok := st.Cells[obj].(SliceVal); ok {
-			// e.g. the slice inside a bytes.Buffer: stays a slice
+		cur, isSlice := st.Cells[obj].(SliceVal)
+		if !isSlice && strings.Contains(obj.T.String(), "strings.Builder") {
+			isSlice = true
+			cur = SliceVal{Elem: typByte}
+		}
+		if isSlice {
+			// e.g. the slice inside a bytes.Buffer / strings.Builder: stays a slice
 			ns := x.freshSlice(fmt.Sprintf("loop%d.obj%d", l.Ordinal, obj.ID), cur.Elem)
 			st.Cells[obj] = ns
 			havockedSlices = append(havockedSlices, ns)
@@ -691,6 +714,10 @@ func (x *Exec) loopMods(l *Loop, st *State) modSet {
 	for b := range l.Blocks {
 		for _, ins := range b.Instrs {
 			switch t := ins.(type) {
+			case *ssa.Next:
+				if it, ok := st.Regs[t.Iter].(rangeIter); ok {
+					m.objs[it.Obj] = true
+				}
 			case *ssa.Store:
 				obj, heap := addrObj(t.Addr)
 				if heap {
